@@ -9,7 +9,7 @@ import basix
 import numpy as np
 from hypothesis import strategies as st
 
-from .. import inputs, kernels, refeval, specs
+from .. import strategies, inputs, kernels, refeval, specs
 from ..common import Run, ShardResult, run_shards, scratch, spec_hash, verif_seed
 from ..common import thorough  # noqa: E402
 from ..hyp import Outcome, drive
@@ -20,7 +20,8 @@ RULE = (
     "Functionals M = sum_k m_k(x) dx(degree=q_k, scheme=s_k) on rational affine cells (all six cell types), m_k monomials "
     "x^a y^b z^c of degree <= q_k (exactness) or q_k+1..q_k+3 (negative controls), q in 0..30 (quick: spread values), schemes "
     "default / GLL / Gauss-Jacobi / vertex, several differing rules in one subdomain, quadrature elements with default and "
-    "random custom points/weights, and metadata-free products P_k x P_m x monomial. Oracles: (1) exact integral in rational "
+    "random custom points/weights (also next to integrals with their own metadata), repeated integrands under metadata that resolve to one rule, "
+    "exterior-facet functionals m(x)*ds(degree, scheme incl. vertex) on every local facet type, and metadata-free products P_k x P_m x monomial. Oracles: (1) exact integral in rational "
     "arithmetic (reference-monomial formulas pulled through the rational affine map); (2) the harness's own quadrature sum with "
     "the rule recomputed by basix.make_quadrature for each integral separately (two-sided: a kernel using another rule for an "
     "integrand above that rule's degree is caught). Non-trivial = monomial degree >= 1 and (degree == q, or a negative control whose "
@@ -205,6 +206,16 @@ def cases(draw, qmax=30, qset=None):
     nforms = draw(st.integers(2, 6))
     for _ in range(nforms):
         kind = draw(st.sampled_from(["single", "single", "multi", "multi", "qelement", "cquad", "nometa", "qmix"]))
+        if tdim >= 2 and strategies.prob(draw, 0.15):
+            # an exterior-facet functional m(x)*ds with its own degree/scheme on one local facet
+            nf = len(basix.topology(refeval.CT[cell])[tdim - 1])
+            fi = draw(st.integers(0, nf - 1))
+            ft = refeval.sub_entity_type(cell, tdim - 1, fi).name
+            sch = draw(st.sampled_from([s_ for s_ in SCHEMES[ft] if not (s_ == "vertex" and cell == "prism")]))
+            q = 1 if sch == "vertex" else draw(st.sampled_from([0, 1, 2, 3, 5, 8]))
+            over = draw(st.sampled_from([0, 0, -1, 1, 2]))
+            forms.append({"kind": "facet", "facet": fi, "q": q, "scheme": sch, "alpha": draw(exponents(tdim, max(0, min(q + over, 12))))})
+            continue
         if kind == "qmix":
             # one subdomain holding an integral whose rule is defined by a quadrature element next to integrals with their own metadata
             terms = []
@@ -281,6 +292,11 @@ def form_spec(cell, f):
             if t["scheme"] != "default":
                 md["quadrature_rule"] = t["scheme"]
             base["integrals"].append({"m": "dx", "id": None, "md": md, "e": mono_tree(t["alpha"])})
+    elif f["kind"] == "facet":
+        md = {"quadrature_degree": int(f["q"])}
+        if f["scheme"] != "default":
+            md["quadrature_rule"] = f["scheme"]
+        base["integrals"].append({"m": "ds", "id": None, "md": md, "e": mono_tree(f["alpha"])})
     elif f["kind"] == "qmix":
         if f["custom"]:
             pts, w = interior_points(cell, f["npts"], f["vals_seed"])
@@ -342,6 +358,13 @@ def evaluate_case(case, wd):
     for k, (f, b) in enumerate(zip(case["forms"], builts)):
         cform = mod.objects[k]
         desc = kernels.read_form_descriptor(mod.ffi, cform)
+        if f["kind"] == "facet":
+            bad = _check_facet_form(cell, f, Af, bf, Am, bv, mod, cform, desc, coords)
+            classes.append("exterior-facet-rule")
+            nontrivial = True
+            if bad:
+                return _viol(h, classes, cell, "facet-rule", f"form {k} ({f}): " + bad, case, k)
+            continue
         idxs = kernels.integrals_of(desc, "cell", -1)
         if len(idxs) != 1:
             return _viol(h, classes, cell, "dispatch", f"form {k}: expected one cell kernel under id -1, found {len(idxs)}", case, k)
@@ -452,6 +475,33 @@ def evaluate_case(case, wd):
             return _viol(h, classes, cell, "exactness", f"form {k} ({f}): kernel {val!r} but the integrand is a polynomial of degree <= q with exact "
                          f"integral {exact!r} (|diff| {abs(val - exact):.3e})", case, k)
     return Outcome("ok", case_id=h, nontrivial=nontrivial, classes=classes, sample={"case": case})
+
+
+def _check_facet_form(cell, f, Af, bf, Am, bv, mod, cform, desc, coords):
+    """m(x)*ds on local facet f["facet"]: the kernel must equal the facet rule's own sum  sum_q w_q m(x(X_q)) |facet| / |reference facet|."""
+    tdim = TDIM[cell]
+    fi = f["facet"]
+    ft = refeval.sub_entity_type(cell, tdim - 1, fi)
+    Xf, wf = own_rule(ft.name, f["q"], f["scheme"])
+    X = refeval.map_to_sub_entity(cell, tdim - 1, fi, Xf)
+    Jf = Af @ refeval.reference_facet_jacobian(cell, fi)
+    fscale = float(np.sqrt(abs(np.linalg.det(Jf.T @ Jf))))
+    vals = mono_values(X, Am, bv, f["alpha"])
+    expected = float(np.sum(wf * vals) * fscale)
+    scale = float(np.sum(np.abs(wf) * mono_mag(X, Am, bv, f["alpha"])) * fscale)
+    tag = int(ft.value)
+    idxs = [i for i in kernels.integrals_of(desc, "exterior_facet", -1) if desc["integrals"][i]["domain"] == tag]
+    if len(idxs) != 1:
+        return f"expected one exterior-facet kernel for facet type {ft.name} under id -1, found {len(idxs)}"
+    res = kernels.call_kernel(mod.ffi, cform.form_integrals[idxs[0]], "float64", (), np.zeros(0), np.zeros(0), coords, entity=[fi])
+    if res.problems:
+        return "; ".join(res.problems)
+    val = float(np.asarray(res.A).ravel()[0])
+    tol = REL_TOL * max(scale, 1e-300) + 1e-300
+    if not abs(val - expected) <= tol:
+        return (f"kernel {val!r} on local facet {fi} but the facet's own {f['scheme']} rule of degree {f['q']} gives {expected!r} "
+                f"(|diff| {abs(val - expected):.3e} > tol {tol:.3e})")
+    return None
 
 
 def _viol(h, classes, cell, kind, what, case, k):
